@@ -394,15 +394,16 @@ pub fn new_env(kind: Kind, r: &mut Rng, nframes: usize) -> Env {
             4 => block,                           // offset 0: identity mapped physical memory
             _ => (r.below(block >> 12)) << 12,
         };
-        let st = arena.st();
+        let mut st = arena.st();
         st.index.clear();
         for i in 0..st.phys.len() {
             st.phys[i] = base + i as u64 * 4096;
-            st.index.insert(st.phys[i], i);
+            let ph = st.phys[i];
+            st.index.insert(ph, i);
         }
         offset = block - base;
     }
-    let st = arena.st();
+    let mut st = arena.st();
     st.policy = *r.pick(&[Policy::FreshFirst, Policy::RecycledFirst, Policy::Random, Policy::HugeAlignedFirst, Policy::LowFirst, Policy::HighFirst]);
     let data_frames: Vec<u64> = (0..st.n()).filter(|&i| st.role[i] == Role::Data).map(|i| st.phys[i]).collect();
     let mut rec = None;
@@ -709,6 +710,8 @@ fn judge(exp: &Exp, out: &Out, op: &Op) -> Option<(&'static str, String)> {
 pub struct Monitors {
     pub probes: bool,
     pub bytediff: bool,
+    /// at most this many probe addresses per step (0 = no limit)
+    pub max_probes: usize,
 }
 
 /// run one operation under all monitors. Returns (outcome, state class, any violation seen)
@@ -734,25 +737,25 @@ pub fn step(env: &mut Env, op: &Op, fail: Fail, rep: &mut Report, r: &mut Rng, m
 
 /// model-independent monitors only (after a violation of another property de-synchronised the model)
 fn step_desynced(env: &mut Env, op: &Op, rep: &mut Report, r: &mut Rng, mon: &Monitors) -> StepResult {
-    let st: &mut State = env.arena.st();
+    let mut st = env.arena.st();
     st.begin_call();
     st.fail_at = None;
     let pre_snap = if mon.bytediff { Some(st.snapshot()) } else { None };
     let root = env.arena.root_phys();
     let is_clean = matches!(op, Op::CleanUp | Op::CleanRange { .. });
-    let pre_dump = hwwalk::dump_skip(st, root, env.rec);
+    let pre_dump = hwwalk::dump_skip(&st, root, env.rec);
     env.last_pf.borrow_mut().clear();
     env.history.push(op.to_json());
     let out = env.exec(op);
     rep.eval();
     let opn = op.name();
     let kname = env.kind.name();
-    let st: &mut State = env.arena.st();
+    let mut st = env.arena.st();
     let cbs: Vec<(String, String, String)> = st.callback_violations.drain(..).collect();
     for (prop, sig, det) in cbs {
         viol(rep, env, &prop, format!("{}|{}|{}", kname, opn, sig), op, vec![("detail", J::s(det))]);
     }
-    let st: &mut State = env.arena.st();
+    let mut st = env.arena.st();
     let log = st.log.clone();
     let nreq = log.iter().filter(|e| !e.dealloc).count();
     let ndealloc = log.iter().filter(|e| e.dealloc).count();
@@ -769,13 +772,13 @@ fn step_desynced(env: &mut Env, op: &Op, rep: &mut Report, r: &mut Rng, mon: &Mo
     if nreq > lvl_max && matches!(op, Op::Map { .. } | Op::IdentityMap { .. }) {
         viol(rep, env, "C09", format!("{}|{}|more-allocation-requests-than-table-levels", kname, opn), op, vec![("requests", J::U(nreq as u64))]);
     }
-    let st: &mut State = env.arena.st();
-    let post = hwwalk::dump_skip(st, root, env.rec);
+    let mut st = env.arena.st();
+    let post = hwwalk::dump_skip(&st, root, env.rec);
     if is_clean {
         check_cleanup(env, op, &pre_dump, &post, &log, rep);
     }
     if let Some(snap) = pre_snap {
-        let st: &mut State = env.arena.st();
+        let mut st = env.arena.st();
         for i in 0..st.n() {
             if st.poisoned_this_call.contains(&i) {
                 continue;
@@ -791,7 +794,7 @@ fn step_desynced(env: &mut Env, op: &Op, rep: &mut Report, r: &mut Rng, mon: &Mo
             }
         }
     }
-    let st: &mut State = env.arena.st();
+    let mut st = env.arena.st();
     let bad: Vec<u64> = st.f2p_log.iter().filter(|x| !x.1).map(|x| x.0).collect();
     if !bad.is_empty() {
         viol(rep, env, "C09", format!("{}|{}|desynced|frame_to_pointer-for-non-table-frame", kname, opn), op, vec![("frame", J::hex(bad[0]))]);
@@ -812,7 +815,7 @@ fn step_desynced(env: &mut Env, op: &Op, rep: &mut Report, r: &mut Rng, mon: &Mo
 }
 
 fn step_synced(env: &mut Env, op: &Op, fail: Fail, rep: &mut Report, r: &mut Rng, mon: &Monitors) -> StepResult {
-    let st: &mut State = env.arena.st();
+    let mut st = env.arena.st();
     st.begin_call();
     let avail = st.free_count();
     st.fail_at = fail.at;
@@ -822,7 +825,7 @@ fn step_synced(env: &mut Env, op: &Op, fail: Fail, rep: &mut Report, r: &mut Rng
     let is_clean = matches!(op, Op::CleanUp | Op::CleanRange { .. });
     let skip = env.rec;
     let need_pre = is_clean || env.kind == Kind::Recursive;
-    let pre_dump = if need_pre { Some(hwwalk::dump_skip(st, root, skip)) } else { None };
+    let pre_dump = if need_pre { Some(hwwalk::dump_skip(&st, root, skip)) } else { None };
     env.last_pf.borrow_mut().clear();
     // natural exhaustion of the pool also fails a request
     let eff_fail = match fail.at {
@@ -848,7 +851,7 @@ fn step_synced(env: &mut Env, op: &Op, fail: Fail, rep: &mut Report, r: &mut Rng
         viol(rep, env, prop, format!("{}|{}|{}|{}", kname, opn, cls_sig(&cls), kind), op, vec![("expected", J::s(format!("{:?}", applied.exp))), ("got", J::s(format!("{:?}", out))), ("state_class", J::s(cls.clone()))]);
         violated = true;
     }
-    let st: &mut State = env.arena.st();
+    let mut st = env.arena.st();
     st.fail_at = None;
     // callbacks
     let cbs: Vec<(String, String, String)> = st.callback_violations.drain(..).collect();
@@ -856,7 +859,7 @@ fn step_synced(env: &mut Env, op: &Op, fail: Fail, rep: &mut Report, r: &mut Rng
         viol(rep, env, &prop, format!("{}|{}|{}", kname, opn, sig), op, vec![("detail", J::s(det))]);
         violated = true;
     }
-    let st: &mut State = env.arena.st();
+    let mut st = env.arena.st();
     // 2. allocator log
     let log = st.log.clone();
     let nreq = log.iter().filter(|e| !e.dealloc).count();
@@ -885,8 +888,8 @@ fn step_synced(env: &mut Env, op: &Op, fail: Fail, rep: &mut Report, r: &mut Rng
         }
     }
     // 3. dump vs model
-    let st: &mut State = env.arena.st();
-    let post = hwwalk::dump_skip(st, root, skip);
+    let mut st = env.arena.st();
+    let post = hwwalk::dump_skip(&st, root, skip);
     rep.count("dumps_compared", 1);
     rep.count("table_entries_read", post.entries_read);
     if is_clean {
@@ -946,7 +949,7 @@ fn step_synced(env: &mut Env, op: &Op, fail: Fail, rep: &mut Report, r: &mut Rng
     }
     // 4. byte diff of all simulated physical memory
     if let Some(snap) = pre_snap {
-        let st: &mut State = env.arena.st();
+        let mut st = env.arena.st();
         let mut changed_frames = 0u64;
         for i in 0..st.n() {
             if st.poisoned_this_call.contains(&i) {
@@ -982,7 +985,7 @@ fn step_synced(env: &mut Env, op: &Op, fail: Fail, rep: &mut Report, r: &mut Rng
         rep.count("frames_changed", changed_frames);
     }
     // 5. frame_to_pointer log: only live tables may be requested
-    let st: &mut State = env.arena.st();
+    let mut st = env.arena.st();
     let bad: Vec<u64> = st.f2p_log.iter().filter(|x| !x.1).map(|x| x.0).collect();
     rep.count("frame_to_pointer_calls", st.f2p_log.len() as u64);
     if !bad.is_empty() && !violated {
@@ -1036,7 +1039,7 @@ fn step_synced(env: &mut Env, op: &Op, fail: Fail, rep: &mut Report, r: &mut Rng
     }
     // 6. probes: the crate's translate* vs the hardware walk of raw memory vs the model
     if mon.probes && !violated {
-        if probe(env, op, rep, r) {
+        if probe(env, op, rep, r, mon.max_probes) {
             violated = true;
         }
     }
@@ -1090,13 +1093,20 @@ fn probe_addrs(env: &Env, op: &Op, r: &mut Rng) -> Vec<u64> {
     v.iter().map(|&a| sx(a)).collect()
 }
 
-fn probe(env: &mut Env, op: &Op, rep: &mut Report, r: &mut Rng) -> bool {
+fn probe(env: &mut Env, op: &Op, rep: &mut Report, r: &mut Rng, max_probes: usize) -> bool {
     let root = env.arena.root_phys();
     let kname = env.kind.name();
-    let addrs = probe_addrs(env, op, r);
+    let mut addrs = probe_addrs(env, op, r);
+    if max_probes > 0 && addrs.len() > max_probes {
+        for i in 0..max_probes {
+            let j = i + r.below((addrs.len() - i) as u64) as usize;
+            addrs.swap(i, j);
+        }
+        addrs.truncate(max_probes);
+    }
     let mut bad = false;
     for va in addrs {
-        let hw = hwwalk::walk(env.arena.st(), root, va);
+        let hw = hwwalk::walk(&env.arena.st(), root, va);
         let md = env.model.lookup(va & 0xffff_ffff_ffff);
         rep.count("probes", 1);
         // (a) raw memory vs history
@@ -1300,10 +1310,10 @@ fn check_cleanup(env: &mut Env, op: &Op, pre: &Dump, post: &Dump, log: &[crate::
     rep.class(&format!("{}|{}|{}", kname, opn, cls));
     // idempotence: a second identical clean-up frees nothing
     if !bad {
-        let st = env.arena.st();
+        let mut st = env.arena.st();
         st.begin_call();
         let o2 = env.exec(op);
-        let st = env.arena.st();
+        let mut st = env.arena.st();
         let n2 = st.log.iter().filter(|e| e.dealloc).count();
         rep.eval();
         if n2 != 0 || !matches!(o2, Out::Clean) {
@@ -1311,7 +1321,7 @@ fn check_cleanup(env: &mut Env, op: &Op, pre: &Dump, post: &Dump, log: &[crate::
             bad = true;
         }
         let root = env.arena.root_phys();
-        let post2 = hwwalk::dump_skip(env.arena.st(), root, env.rec);
+        let post2 = hwwalk::dump_skip(&env.arena.st(), root, env.rec);
         if post2.kids != post.kids {
             viol(rep, env, "C10", format!("{}|{}|repeated-clean-up-changed-tables", kname, opn), op, vec![]);
             bad = true;
@@ -1400,7 +1410,7 @@ fn untouched_violation(pre: &BTreeMap<u16, hwwalk::RNode>, post: &BTreeMap<u16, 
 // history driver
 // ------------------------------------------------------------------------------------------------
 
-pub fn run_history(kind: Kind, r: &mut Rng, rep: &mut Report, focus: &str, len: usize, nframes: usize, enumerate_faults: bool) {
+pub fn run_history(kind: Kind, r: &mut Rng, rep: &mut Report, focus: &str, len: usize, nframes: usize, enumerate_faults: bool, mon: &Monitors) {
     let mut env = new_env(kind, r, nframes);
     env.focus = match focus {
         "c01" => vec!["C01", "C11"],
@@ -1411,7 +1421,6 @@ pub fn run_history(kind: Kind, r: &mut Rng, rep: &mut Report, focus: &str, len: 
         _ => Vec::new(),
     };
     let u = universe(r, env.rec);
-    let mon = Monitors { probes: true, bytediff: true };
     rep.count("histories", 1);
     for _ in 0..len {
         let op = gen_op(r, &env, &u, focus);
@@ -1423,7 +1432,7 @@ pub fn run_history(kind: Kind, r: &mut Rng, rep: &mut Report, focus: &str, len: 
             if k >= 1 && env.arena.st().free_count() >= k {
                 for j in 1..=k {
                     let saved = save(&env);
-                    let res = step(&mut env, &op, Fail { at: Some(j) }, rep, r, &mon);
+                    let res = step(&mut env, &op, Fail { at: Some(j) }, rep, r, mon);
                     rep.count("failure_points_enumerated", 1);
                     if !matches!(res.out, Out::MapErr(ref e) if e == "FrameAllocationFailed") && !res.violated {
                         viol(rep, &env, "C02", format!("{}|{}|injected-allocation-failure-not-reported", kind.name(), op.name()), &op, vec![("fail_request", J::U(j as u64)), ("got", J::s(res.out.short()))]);
@@ -1433,7 +1442,7 @@ pub fn run_history(kind: Kind, r: &mut Rng, rep: &mut Report, focus: &str, len: 
                 }
             }
         }
-        let res = step(&mut env, &op, Fail::none(), rep, r, &mon);
+        let res = step(&mut env, &op, Fail::none(), rep, r, mon);
         if res.violated {
             rep.count("histories_abandoned_after_violation", 1);
             return;
@@ -1457,12 +1466,12 @@ pub struct Saved {
 }
 
 pub fn save(env: &Env) -> Saved {
-    let st = env.arena.st();
+    let mut st = env.arena.st();
     Saved { mem: st.snapshot(), model: env.model.clone(), role: st.role.clone(), recycled: st.recycled.clone(), ever: st.ever_allocated.clone(), rng: st.rng.clone(), table_frames: st.table_frames.clone(), hist_len: env.history.len() }
 }
 
 pub fn restore(env: &mut Env, s: Saved) {
-    let st = env.arena.st();
+    let mut st = env.arena.st();
     st.restore(&s.mem);
     st.role = s.role;
     st.recycled = s.recycled;
@@ -1494,7 +1503,10 @@ pub fn run(a: &Args, rep: &mut Report, focus: &str) {
     for h in 0..histories {
         let kind = kinds[(h as usize) % kinds.len()];
         let len = if under_miri { a.get_u64("len", 40) as usize } else { 20 + r.below(181) as usize };
-        let nframes = if under_miri { 24 } else { 32 + r.below(40) as usize };
-        run_history(kind, &mut r, rep, focus, len, nframes, focus == "c02");
+        let nframes = if under_miri { a.get_u64("frames", 14) as usize } else { 32 + r.below(40) as usize };
+        // the interpreter is ~10^4 times slower: under Miri the tool itself judges memory safety, the monitors keep
+        // only the dump-vs-model comparison and a few probes
+        let mon = Monitors { probes: a.get_u64("probes", 1) != 0, bytediff: a.get_u64("bytediff", if under_miri { 0 } else { 1 }) != 0, max_probes: a.get_u64("max_probes", if under_miri { 3 } else { 0 }) as usize };
+        run_history(kind, &mut r, rep, focus, len, nframes, focus == "c02" && !under_miri, &mon);
     }
 }
